@@ -5,6 +5,7 @@ try:
 except ImportError:
     import pickle
 
+import copy
 
 import numpy as np
 
@@ -93,8 +94,12 @@ class FitInfoFile(object):
                     info.meta = self._first_meta
                     yield info
         else:
+            # Consumers select fits in place (info.keep), so hand out shallow
+            # copies to leave the caller's own results unchanged.
             for info in self._fits:
-                yield info
+                info_copy = copy.copy(info)
+                info_copy.meta = info.meta
+                yield info_copy
 
 
 class FitInfoMeta(object):
